@@ -188,7 +188,7 @@ type raceRun struct {
 
 var pending *raceRun
 
-// startRace launches the mc-race processes (at most 4 at a time, 8 Ps each)
+// startRace launches the mc-race processes (at most 4 at a time, 16 Ps each)
 // in the background.
 func startRace(tier string) *raceRun {
 	run := &raceRun{tier: tier, done: make(chan struct{})}
@@ -209,7 +209,7 @@ func startRace(tier string) *raceRun {
 			go func(p *raceProc) {
 				defer func() { <-sem; wg.Done() }()
 				cmd := exec.Command(RaceBin(), tier)
-				cmd.Env = append(os.Environ(), "GORACE=halt_on_error=0 exitcode=66 log_path="+p.logBase, "GOMAXPROCS=8")
+				cmd.Env = append(os.Environ(), "GORACE=halt_on_error=0 exitcode=66 log_path="+p.logBase, "GOMAXPROCS=16")
 				cmd.Stdout, cmd.Stderr = &p.stdout, &p.stderr
 				p.err = cmd.Run()
 			}(p)
@@ -221,16 +221,19 @@ func startRace(tier string) *raceRun {
 
 // RaceSummary is what one mc-race process prints on stdout.
 type RaceSummary struct {
-	Goroutines int            `json:"goroutines"`
-	Rounds     int            `json:"rounds"`
-	Iterations int            `json:"iterations"`  // per goroutine and round
-	Calls      int64          `json:"calls"`       // observer calls of the rounds
-	ColdShapes int            `json:"cold_shapes"` // shapes of the cold phase
-	ColdCalls  int64          `json:"cold_calls"`  // observer calls of the cold phase
-	Shapes     int            `json:"shapes"`
-	Observers  int            `json:"observers"`
-	Mismatches []RaceMismatch `json:"mismatches"`
-	WallS      float64        `json:"wall_s"`
+	Goroutines int   `json:"goroutines"`
+	Rounds     int   `json:"rounds"`
+	Iterations int   `json:"iterations"`  // per goroutine and round
+	Calls      int64 `json:"calls"`       // observer calls of the rounds
+	ColdShapes int   `json:"cold_shapes"` // shapes of the cold phase
+	ColdCalls  int64 `json:"cold_calls"`  // observer calls of the cold phase
+	Shapes     int   `json:"shapes"`
+	Observers  int   `json:"observers"`
+	// stampede phase: goroutines per observer, observer calls.
+	StampedeGoroutines int            `json:"stampede_goroutines"`
+	StampedeCalls      int64          `json:"stampede_calls"`
+	Mismatches         []RaceMismatch `json:"mismatches"`
+	WallS              float64        `json:"wall_s"`
 }
 
 // RaceMismatch is a result that differs from the solo result (or a panic)
@@ -332,6 +335,8 @@ func (run *raceRun) collect(r *core.Result) {
 		total.Iterations = sum.Iterations
 		total.Calls += sum.Calls
 		total.ColdCalls += sum.ColdCalls
+		total.StampedeCalls += sum.StampedeCalls
+		total.StampedeGoroutines = sum.StampedeGoroutines
 		for _, m := range sum.Mismatches {
 			clause := "result-differs"
 			if m.Panic {
@@ -350,13 +355,15 @@ func (run *raceRun) collect(r *core.Result) {
 	r.Count("race_pass_iterations", int64(total.Rounds*total.Iterations))
 	r.Count("race_fresh_object_rounds", int64(total.Rounds))
 	r.Count("race_pass_observer_calls", total.Calls)
+	r.Count("race_stampede_goroutines", int64(total.StampedeGoroutines))
+	r.Count("race_stampede_observer_calls", total.StampedeCalls)
 	r.Count("race_reports", nrep)
 	r.Count("race_runtime_fatal_errors", nfatal)
 	r.Assumptions = append(r.Assumptions, fmt.Sprintf(
 		"data races: auxiliary dynamic analysis, NOT an enumeration — the C18 driver bodies run free under the Go race detector in %d fresh processes. "+
 			"Each process starts with a COLD phase (before any solo baseline or other library use: %d goroutines released together, every observer on each of %d shapes, "+
 			"most of them over generic user types never looked at before, each goroutine in its own rotation), so that lazily-filled package-level state is first touched concurrently; "+
-			"then rounds, each on brand-new shared objects of every shape, all goroutines released at once, reference results from twin objects (%d rounds × %d iterations × %d observers on each of %d shapes in total): state lazily initialised per error VALUE is cold in every round. The detector is happens-before based: it does not need the racy "+
+			"then rounds, each on brand-new shared objects of every shape, all goroutines released at once, reference results from twin objects (%d rounds × %d iterations × %d observers on each of %d shapes in total): state lazily initialised per error VALUE is cold in every round; finally a stampede per formatting/encoding observer (48 goroutines released together, all inside that one observer on shapes with nested formatting) for process-global state that only misbehaves under many calls in flight — results are compared with twin references throughout, which is the only thing that can see a defect that is no data race. The detector is happens-before based: it does not need the racy "+
 			"interleaving to occur, but it only sees code paths that execute — first-use paths are seen once per type and process, which is why types and processes are multiplied",
 		len(run.procs), total.Goroutines, total.ColdShapes, total.Rounds, total.Iterations, total.Observers, total.Shapes))
 }
